@@ -280,3 +280,183 @@ def run(ctx):
     _run_main(ctx)
     extras(ctx)
     ctx.flush()
+
+
+# ---- extras2 (harness extension hx_a): large instances, containers / dtypes ----------------------------------------------------------------
+#
+# Not demanded (see NOTES.md): trapezoid integration of 8-bit integer records (cumulative_trapezoid forms a[i] + a[i-1] in the record's dtype and
+# wraps: wrong VALUES on the pinned tree, reported as a suspected defect; the rectangle rule multiplies by dt first and is right, as are 16/32/64
+# bit records); list / tuple records with trap=False (TypeError on the pinned tree, as in the main module); long float32 records (single-
+# precision accumulation).
+
+def _x2_increments_ok(a, dt, trap, v, d, exact):
+    """the increment identities at EVERY index, with NumPy; exact=True: equality (dyadic-safe record and step), else 1e-9 of the series scale"""
+    a = np.asarray(a, dtype=float)
+    if trap:
+        ev, ed = dt * (a[1:] + a[:-1]) / 2, dt * (v[1:] + v[:-1]) / 2
+    else:
+        ev, ed = dt * a[:-1], dt * v[1:]
+    dv, dd = np.diff(v) - ev, np.diff(d) - ed
+    if exact:
+        return bool(np.all(dv == 0)), bool(np.all(dd == 0)), dv, dd
+    sv = max(float(np.max(np.abs(v))), float(np.max(np.abs(a)))) * max(dt, 1.0)
+    sdd = max(float(np.max(np.abs(d))), float(np.max(np.abs(v)))) * max(dt, 1.0)
+    return bool(np.all(np.abs(dv) <= 1e-9 * sv)), bool(np.all(np.abs(dd) <= 1e-9 * sdd)), dv, dd
+
+
+def x2_large(ctx):
+    """LARGE instances (6 000 - 60 000 samples; the main module stops at 300 in the quick tier and samples 40 indices above 400): lengths, zero
+    start, the increment identities at every index (exactly on dyadic-safe records), the closed forms for constant / linearly varying
+    acceleration, prefix decomposition (bit for bit), object-level == array-level, peaks == max |series|"""
+    import eqsig
+    from eqsig import displacements as sd, im
+    rng = ctx.rng
+    quick = ctx.tier == 'quick'
+    sizes = [6000, 25000, 60000] if quick else [6000, 25000, 60000, 5000, 5001, 8192, 16385, 100000, 40000]
+    for n in sizes:
+        for kind in (['int', 'noise'] if quick else ['int', 'noise', 'plateau', 'const', 'ramp']) + ([rng.choice(['const', 'ramp', 'plateau'])] if quick else []):
+            if kind == 'noise':
+                dt = gen.any_dt(rng)
+                a = gen.noise_record(rng, n, rng.choice([1.0, 1e-6, 1e6]))
+            else:
+                dt = gen.dyadic_dt(rng)
+                a = {'int': lambda: gen.int_record(rng, n), 'plateau': lambda: gen.plateau_record(rng, n), 'const': lambda: np.full(n, float(rng.choice([-3, 1, 2]))),
+                     'ramp': lambda: float(rng.choice([-2, 1, 3])) * np.arange(n, dtype=float) + float(rng.choice([0, -5, 7]))}[kind]()
+            exact = kind != 'noise'
+            desc = {'a': f'{kind} record, n={n} (seed-derived)' + ('' if kind in ('int', 'noise', 'plateau') else f', a[0]={a[0]}, a[1]={a[1]}'), 'dt': dt, 'head': a[:6]}
+            ctx.hist(f'large/{kind}')
+            ctx.count_case(('x2-large', kind, n, dt, a[:32].tobytes()), True, sample={'fn': 'calc_velo_and_disp_from_accel_arr (large instance)', 'n': n, 'dt': dt, 'kind': kind} if n == sizes[0] else None)
+            snap = a.copy()
+            for trap in (True, False):
+                inputs = {**desc, 'trap': trap}
+                res = call_impl(sd.calc_velo_and_disp_from_accel_arr, a, dt, trap=trap)
+                if res[0] != 'ok':
+                    ctx.oracle('calc_velo_and_disp_from_accel_arr returns on its domain', False, inputs, detail=res)
+                    continue
+                v, d = np.asarray(res[1][0]), np.asarray(res[1][1])
+                ctx.oracle('lengths == len(record) [large instance]', v.shape == (n,) and d.shape == (n,), inputs)
+                if not (v.shape == (n,) and d.shape == (n,)):
+                    continue
+                ctx.oracle('v[0] == 0 and d[0] == 0 [large instance]', v[0] == 0 and d[0] == 0, inputs)
+                okv, okd, dv, dd = _x2_increments_ok(a, dt, trap, v, d, exact)
+                name = 'trapezoid' if trap else 'rectangle'
+                ctx.oracle(f'{name} increments of velocity at every index [large instance]', okv, inputs, detail={'first_bad': int(np.argmax(dv != 0)) + 1 if exact else int(np.argmax(np.abs(dv))) + 1})
+                ctx.oracle(f'{name} increments of displacement at every index [large instance]', okd, inputs, detail={'first_bad': int(np.argmax(dd != 0)) + 1 if exact else int(np.argmax(np.abs(dd))) + 1})
+                t = dt * np.arange(n)
+                if kind == 'const' and trap:
+                    ctx.oracle('trapezoid integration is exact for constant acceleration: v = c t, d = c t^2 / 2 (==) [large instance]',
+                               bool(np.array_equal(v, a[0] * t) and np.array_equal(d, a[0] * t * t / 2)), inputs)
+                if kind == 'ramp' and trap:
+                    ctx.oracle('trapezoid integration is exact for linearly varying acceleration: v = a0 t + s t^2 / 2 (==) [large instance]',
+                               bool(np.array_equal(v, a[0] * t + (a[1] - a[0]) / dt * t * t / 2)), inputs)
+                m = rng.choice([n // 2, 4097, n - 1, 5000])
+                pre = call_impl(sd.calc_velo_and_disp_from_accel_arr, a[:m], dt, trap=trap)
+                ctx.oracle('the integrals of the first m samples == the first m entries of the integrals of the whole record (==) [large instance]',
+                           pre[0] == 'ok' and np.array_equal(pre[1][0], v[:m]) and np.array_equal(pre[1][1], d[:m]), {**inputs, 'm': m})
+                if trap:
+                    asig = eqsig.AccSignal(a, dt) if rng.random() < 0.5 else eqsig.AccSignal(a[:7], dt)
+                    if asig.npts != n:
+                        _ = asig.velocity, asig.pgv
+                        asig.reset_values(a)
+                    ctx.oracle('object-level velocity/displacement == array-level [large instance]', bool(np.array_equal(asig.velocity, v) and np.array_equal(asig.displacement, d)), inputs)
+                    pk = call_impl(lambda: (asig.pga, asig.pgv, asig.pgd))
+                    want = (np.max(np.abs(a)), np.max(np.abs(v)), np.max(np.abs(d)))
+                    ctx.oracle('pga/pgv/pgd == max|series| [large instance]', pk[0] == 'ok' and all(float(x) == float(y) for x, y in zip(pk[1], want)), inputs, detail={'got': pk[1], 'want': want})
+                    for nm, series in (('record', a), ('velocity', v)):
+                        r = call_impl(im.calc_peak, series)
+                        ctx.oracle('calc_peak == max|series| [large instance]', r[0] == 'ok' and float(r[1]) == float(np.max(np.abs(series))), {**inputs, 'series': nm})
+            ctx.oracle('C05-like: input unchanged', bool(np.array_equal(snap, a)), desc)
+
+
+def x2_containers(ctx):
+    """the integrals and the peak of a record given as list / tuple / int32 / int64 / float32 / strided ndarray or as a narrow integer dtype with
+    values near the dtype's limits are those of the same numbers in float64 (array level and object level)"""
+    import eqsig
+    from eqsig import displacements as sd, im
+    rng = ctx.rng
+    for it in range(16 if ctx.tier == 'quick' else 160):
+        n = gen.log_int(rng, 2, 90)
+        dt = gen.dyadic_dt(rng)
+        whole = it % 2 == 0
+        a = gen.int_record(rng, n) if whole else gen.dyadic_record(rng, n)
+        ctx.count_case(('x2-cont', a.tobytes(), dt), gen.nontrivial_record(a))
+        variants = [(lab, c, a) for lab, c in gen.container_variants(a)]
+        if whole:
+            variants += gen.narrow_int_variants(a)
+        for lab, c, fl in variants:
+            ctx.hist('record container=' + lab)
+            is_seq = not isinstance(c, np.ndarray)
+            eight_bit = lab in ('int8x40', 'uint8x40')
+            for trap in (True, False):
+                if (is_seq and not trap) or (eight_bit and trap):
+                    continue
+                want = sd.calc_velo_and_disp_from_accel_arr(fl, dt, trap=trap)
+                for fname in ('calc_velo_and_disp_from_accel_arr', 'velocity_and_displacement_from_acceleration'):
+                    r = call_impl(getattr(sd, fname), c, dt, trap=trap)
+                    ok = r[0] == 'ok' and all(np.asarray(x).shape == np.asarray(y).shape and np.array_equal(np.asarray(x, dtype=float), y) for x, y in zip(r[1], want))
+                    ctx.oracle(f'C08 {fname}: a record given as list / tuple / integer (16-64 bit; 8 bit with the rectangle rule) / float32 / strided ndarray gives the integrals of the '
+                               'same numbers in float64 (==)', ok, {'a': fl, 'dt': dt, 'trap': trap, 'container': lab}, detail=None if r[0] == 'ok' else r)
+            r = call_impl(im.calc_peak, c)
+            ctx.oracle('C08 calc_peak of a list / tuple / integer / float32 / strided record == max|x| of the same numbers', r[0] == 'ok' and float(r[1]) == float(np.max(np.abs(fl))),
+                       {'a': fl, 'container': lab}, detail=r)
+            if not eight_bit:
+                o = call_impl(lambda: eqsig.AccSignal(c, dt))
+                w = sd.calc_velo_and_disp_from_accel_arr(fl, dt)
+                pk = call_impl(lambda: (o[1].velocity, o[1].displacement, o[1].pga, o[1].pgv, o[1].pgd)) if o[0] == 'ok' else o
+                ok = pk[0] == 'ok' and np.array_equal(np.asarray(pk[1][0], dtype=float), w[0]) and np.array_equal(np.asarray(pk[1][1], dtype=float), w[1]) and \
+                    (float(pk[1][2]), float(pk[1][3]), float(pk[1][4])) == (float(np.max(np.abs(fl))), float(np.max(np.abs(w[0]))), float(np.max(np.abs(w[1]))))
+                ctx.oracle('C08 object-level velocity / displacement / pga / pgv / pgd of an AccSignal built from any container are those of the same numbers in float64 (==)', ok,
+                           {'a': fl, 'dt': dt, 'container': lab}, detail=None if pk[0] == 'ok' else pk)
+
+
+def extras2(ctx):
+    x2_large(ctx)
+    x2_containers(ctx)
+
+
+_run_main2 = run
+
+
+def run(ctx):
+    _run_main2(ctx)
+    extras2(ctx)
+    ctx.flush()
+
+
+# ---- open finding F08-1: arithmetic in the record's own integer dtype (see _narrow_findings.py) -------------------------------------------
+
+import _narrow_findings as _NF  # noqa: E402
+
+
+def _narrow_table():
+    import eqsig
+    from eqsig import displacements as sd, im
+    return {'calc_velo_and_disp_from_accel_arr': lambda x, dt: sd.calc_velo_and_disp_from_accel_arr(x, dt),
+            'calc_velo_and_disp_from_accel_arr/rect': lambda x, dt: sd.calc_velo_and_disp_from_accel_arr(x, dt, trap=False),
+            'AccSignal.velocity/displacement': lambda x, dt: (eqsig.AccSignal(x, dt).velocity, eqsig.AccSignal(x, dt).displacement),
+            'pga/pgv/pgd': lambda x, dt: (eqsig.AccSignal(x, dt).pga, eqsig.AccSignal(x, dt).pgd), 'calc_peak': lambda x, dt: im.calc_peak(x)}
+
+
+try:
+    KNOWN_MATCHERS
+except NameError:
+    KNOWN_MATCHERS = {}
+KNOWN_MATCHERS['F08-1'] = _NF.matcher('F08-1')
+_known_witness_prev = globals().get('known_witness')
+
+
+def known_witness(fid):
+    if fid == 'F08-1':
+        from eqsig import displacements as sd
+        a = np.array([100, 120, -100, -120, 50], dtype=np.int8)
+        return not np.allclose(sd.calc_velo_and_disp_from_accel_arr(a, 0.5)[0], sd.calc_velo_and_disp_from_accel_arr(a.astype(float), 0.5)[0])
+    return _known_witness_prev(fid) if _known_witness_prev else True
+
+
+_run_main_nf = run
+
+
+def run(ctx):
+    _run_main_nf(ctx)
+    _NF.narrow_oracles(ctx, 'C08', _narrow_table())
+    ctx.flush()
